@@ -1,4 +1,6 @@
 SPECIFICATION Spec
 CONSTANTS Names = {"A", "B", "AB"} Values = {"", "v w", "p=q:r"} MaxOps = 5
 INVARIANT Agree
+CONSTANT ReadShapes <- ShapesSmall
+CONSTANT ReadMax = 2
 CHECK_DEADLOCK FALSE
